@@ -669,7 +669,7 @@ def check_mutated(ctx, case):
 
 def check_any(ctx, case):
     return {'name': check_name, 'stacked': check_stacked, 'tree': check_tree, 'conv': check_conv, 'malformed': check_malformed,
-            'mutated': check_mutated}[case['kind']](ctx, case)
+            'mutated': check_mutated, 'fractional': lambda c, k: check_fractional(c, k)}[case['kind']](ctx, case)
 
 
 def run_atheris(ctx, fam, n):
@@ -711,8 +711,42 @@ def check_text(ctx, case):
     return check_any(ctx, case) if case.get('kind') != 'text' else check_malformed(ctx, dict(kind='malformed', text=case['text'], form='fuzz'))
 
 
+# -- fractional powers that add up only up to round-off ------------------------------------------------------------------------
+FRAC = ['0.1', '0.2', '0.3', '0.7', '0.15', '0.05', '1.1', '2.3', '0.6', '0.9', '0.25', '0.35']
+
+
+def enum_fractional(tier):
+    """m^0.1 m^0.2 converted to m^0.3: the exponents of a product are sums of binary fractions and differ from the directly
+    written exponent in the last bit; the quantities are the same (the unit algebra allows for this: compatible)"""
+    from decimal import Decimal as D
+    for u in ('m', 's', 'kg', 'K', 'mol', 'J', 'cm'):
+        for a in FRAC:
+            for b in FRAC:
+                t = str(D(a) + D(b))
+                yield dict(kind='fractional', text='%s^%s %s^%s' % (u, a, u, b), target='%s^%s' % (u, t), ratio=1.0)
+                yield dict(kind='fractional', text='2 %s^%s*%s^%s' % (u, a, u, b), target='%s^%s' % (u, t), ratio=2.0)
+                r = D(a) * 3 - D(t)
+                if r != 0:
+                    yield dict(kind='fractional', text='(%s^%s)^3/%s^%s' % (u, a, u, r), target='%s^%s' % (u, t), ratio=1.0)
+
+
+def check_fractional(ctx, case):
+    m = _pg()
+    ctx.case(nontrivial=True, key=[case['text'], case['target']], sample=dict(expression=case['text'], converted_to=case['target']))
+    try:
+        q = m['eval_qty'](case['text'])
+        r = q.in_units(case['target'])
+    except Exception as e:
+        ctx.fail('fractional-powers:raises-%s' % type(e).__name__, '%r in units of %r raised %s: %s' % (case['text'], case['target'], type(e).__name__, str(e)[:160]))
+        return
+    ctx.count()
+    if isinstance(r, m['Quantity']) or abs(float(r) - case['ratio']) > 1e-12:
+        ctx.fail('fractional-powers:conversion', '%r in units of %r = %r, expected the plain number %r' % (case['text'], case['target'], r, case['ratio']))
+
+
 FAMILIES = [
     Family('names', check_any, enumerate=enum_names),
+    Family('fractional-powers', lambda ctx, case: check_fractional(ctx, case), enumerate=enum_fractional),
     Family('names-history', check_any, enumerate=enum_names_history, sharded=False),
     Family('trees', check_any, strategy=tree_strategy, n=(8000, 300000)),
     Family('conversions', check_any, strategy=lambda tier: conversion_case(), n=(4000, 100000)),
